@@ -19,7 +19,8 @@ RULE = ("registries drawn from all signatures {Value,Logical,Nodes}^n -> type, n
         "Refuted when compile() succeeds <=/=> (well-typed per RFC 9535 2.4.3 and all integers in range), when the error is not a "
         "JSONPathError, or when a registered probe function is called during compile(). Non-trivial: ill-typed/out-of-range, or "
         "well-typed with call nesting >= 2; distinct by (registry, AST, bounds). ledger = (parameter type x argument form) and "
-        "(position x result type) cells.")
+        "(position x result type) cells."
+        " Bounds are configured by subclass attribute or on the instance after construction (and after a first use), including ranges beyond 2^53; four registries that reuse the same function names with different signatures are used alternately in each worker.")
 ASSUMPTIONS = ["vf/oracle/typing.py transcribes RFC 9535 2.4.3 (cross-validated against the repository's IETF well-typedness table by ./selfcheck)",
                "a non-singular query used as a comparison operand counts as a validity error (the grammar itself already excludes it)"]
 DECIDING_MONITORS = ["M-compile"]
